@@ -231,7 +231,9 @@ def converse(cfg, reqs, ress, script, step_budget=20000, medium=None):
                         if stop:
                             out.t_end = "rtox-none"
                             break
-                        req = tg.exchange(data, tmo["t"])
+                        # (payloads are handed over as bytes or bytearray)
+                        req = tg.exchange(bytearray(data) if data is not None
+                                          and k & 1 else data, tmo["t"])
                     except nfc.clf.CommunicationError as e:
                         out.t_err = (k, e)
                         break
@@ -274,7 +276,8 @@ def converse(cfg, reqs, ress, script, step_budget=20000, medium=None):
                                 "brty": ini.target.brty}
                 for k, req in enumerate(reqs):
                     try:
-                        r = ini.exchange(req, tmo["i"])
+                        r = ini.exchange(bytearray(req) if k & 1 else req,
+                                         tmo["i"])
                     except nfc.clf.CommunicationError as e:
                         out.i_err = (k, e)
                         break
